@@ -344,6 +344,11 @@ def handle (st : DrvState) (op : String) (a : List Int) : DrvState × String :=
   | "iir", d :: toks =>
     if d != 0 then (st, iirRun (Gen.corrBD.map tapFloat) (Gen.corrAD.map tapFloat) (fun n => Float.ofInt n / 4096) dblBits toks)
     else (st, iirRun (Gen.corrBF.map tapFloat32) (Gen.corrAF.map tapFloat32) (fun n => (Float.ofInt n).toFloat32 / 4096) (fun y => Int.ofNat y.toBits.toNat) toks)
+  | "iirs", d :: k :: toks =>
+    -- the same filter on inputs x / 2^k (the power of two is exact in both formats for the k the harness uses)
+    let sc : Float := Float.exp2 (Float.ofInt k)
+    if d != 0 then (st, iirRun (Gen.corrBD.map tapFloat) (Gen.corrAD.map tapFloat) (fun n => Float.ofInt n / sc) dblBits toks)
+    else (st, iirRun (Gen.corrBF.map tapFloat32) (Gen.corrAF.map tapFloat32) (fun n => (Float.ofInt n).toFloat32 / sc.toFloat32) (fun y => Int.ofNat y.toBits.toNat) toks)
   | "spec_lsf", can :: ns :: rest =>
     -- spec_lsf <can> <nsrc> src... <ndst> dst... -> 30 LSF bytes | 48 frame bytes
     let src := (rest.take ns.toNat).map Int.toNat
